@@ -493,3 +493,246 @@ func checkAccountWithoutPrivateKey(c *Ctx, rule string) {
 	c.Floor(rule, "decryptions of the account key ciphertext", nDec, 1)
 	c.Floor(rule, "derive-on-unlock queue insertions", nQueue, 3)
 }
+
+// checkCiphertextFieldSlots: the in-memory ciphertext fields of managed addresses and accounts are slots of
+// the same kind as the ciphertext parameters of the persistence helpers (they are later written to the
+// database verbatim, and decrypted with the key class their name promises). Every store to such a field
+// must carry ciphertext produced under that class (or stored ciphertext / nil / a parameter whose every
+// caller satisfies the same).
+func checkCiphertextFieldSlots(c *Ctx, rule string) {
+	p := c.P
+	n := 0
+	for _, fn := range p.FuncsIn("waddrmgr") {
+		if strings.Contains(outermost(fn).Name(), "igrat") {
+			continue
+		}
+		for _, b := range fn.Blocks {
+			for _, ins := range b.Instrs {
+				st, ok := ins.(*ssa.Store)
+				if !ok {
+					continue
+				}
+				fa, ok := st.Addr.(*ssa.FieldAddr)
+				if !ok {
+					continue
+				}
+				tn, f := fieldAddrName(fa)
+				want := ""
+				switch {
+				case f == "privKeyEncrypted" && tn == "managedAddress", f == "acctKeyEncrypted" && tn == "accountInfo":
+					want = "priv"
+				case f == "scriptEncrypted":
+					want = "script"
+				}
+				if want == "" {
+					continue
+				}
+				n++
+				bad := slotOrigins(p, st.Val, want, 0, map[ssa.Value]bool{})
+				c.Check(rule, fmt.Sprintf("ciphertext-field:%s.%s<-%s", tn, f, outermost(fn).Name()), st.Pos(), len(bad) == 0,
+					fmt.Sprintf("%s.%s is assigned, in %s, something that is not ciphertext under the %s key class: %s (it is later decrypted with that class — after the next Lock/Unlock the key cannot be recovered — and may be persisted as is)", tn, f, fnName(fn), want, strings.Join(bad, "; ")))
+			}
+		}
+	}
+	c.Floor(rule, "stores to in-memory ciphertext fields", n, 5)
+}
+
+// checkPublicClassPlaintext: the public crypto key is available while the manager is locked (and its
+// passphrase is the well-known public one by default), so what it seals is only as secret as the public
+// passphrase. An extended key whose serialisation is sealed under the public class must therefore be a
+// neutered key: the result of Neuter(), or a parameter of an exported entry point (API contract), or a
+// parameter of an internal function all of whose callers pass such a key.
+func checkPublicClassPlaintext(c *Ctx, rule string) {
+	p := c.P
+	var keyIsPublic func(k ssa.Value, depth int, seen map[ssa.Value]bool) []string
+	keyIsPublic = func(k ssa.Value, depth int, seen map[ssa.Value]bool) []string {
+		if depth > 5 {
+			return nil
+		}
+		var bad []string
+		sl := &Slicer{P: p, KeepExtract: true}
+		for _, o := range sl.Origins(k) {
+			if seen[o] {
+				continue
+			}
+			seen[o] = true
+			switch x := o.(type) {
+			case *ssa.Extract:
+				if call, ok := x.Tuple.(*ssa.Call); ok && calleeShort(&call.Call) == "Neuter" && x.Index == 0 {
+					continue
+				}
+				bad = append(bad, describeValue(o))
+			case *ssa.Parameter:
+				fn := x.Parent()
+				if fn.Parent() == nil && token.IsExported(fn.Name()) {
+					continue
+				}
+				idx := paramIndex(fn, x)
+				sites := p.callers(fn)
+				if len(sites) == 0 {
+					bad = append(bad, "parameter "+x.Name()+" of "+fnName(fn)+" (no callers found)")
+				}
+				for _, cs := range sites {
+					args := cs.Common().Args
+					ai := idx
+					if cs.Common().IsInvoke() {
+						ai = idx - 1
+					}
+					if ai < 0 || ai >= len(args) || strings.HasSuffix(p.Fset.Position(cs.Pos()).Filename, "_test.go") {
+						continue
+					}
+					bad = append(bad, keyIsPublic(args[ai], depth+1, seen)...)
+				}
+			default:
+				if _, f, _, ok := fieldOf(o); ok && strings.Contains(strings.ToLower(f), "pub") {
+					continue // a stored public key field (acctKeyPub, ...)
+				}
+				bad = append(bad, describeValue(o))
+			}
+		}
+		return bad
+	}
+	n := 0
+	for _, fn := range p.FuncsIn("waddrmgr") {
+		if strings.Contains(outermost(fn).Name(), "igrat") {
+			continue
+		}
+		for _, ci := range callsOf(fn) {
+			call, ok := ci.(*ssa.Call)
+			if !ok || calleeShort(&call.Call) != "Encrypt" || len(call.Call.Args) == 0 {
+				continue
+			}
+			recv := call.Call.Value
+			if !call.Call.IsInvoke() {
+				recv = call.Call.Args[0]
+			}
+			cls := keyClassOf(p, recv, 0)
+			if len(cls) != 1 || !cls["pub"] {
+				continue
+			}
+			plain := call.Call.Args[len(call.Call.Args)-1]
+			for _, o := range (&Slicer{P: p, KeepExtract: true}).Origins(plain) {
+				sc, ok := o.(*ssa.Call)
+				if !ok || calleeShort(&sc.Call) != "String" || sc.Call.IsInvoke() || len(sc.Call.Args) == 0 {
+					continue
+				}
+				if !strings.HasSuffix(sc.Call.Args[0].Type().String(), "hdkeychain.ExtendedKey") {
+					continue
+				}
+				n++
+				bad := keyIsPublic(sc.Call.Args[0], 0, map[ssa.Value]bool{})
+				c.Check(rule, "public-class-seals-neutered-key:"+outermost(fn).Name(), call.Pos(), len(bad) == 0,
+					"an extended key that is not the result of Neuter() is serialised and sealed under the PUBLIC crypto key in "+fnName(fn)+" ("+strings.Join(dedup(bad), "; ")+"): an extended private key would be readable from the file with the public passphrase alone and would survive conversion to watching-only in the 'public key' slot")
+			}
+		}
+	}
+	c.Floor(rule, "extended keys sealed under the public crypto key", n, 5)
+}
+
+// checkSnaclErrors: inside snacl every error result (scrypt.Key rejecting its parameters, a short read
+// from the random source, a nested helper) must be propagated: none dropped, none turned into success on
+// its failure branch. A swallowed KDF error leaves the all-zero key in place and everything sealed
+// afterwards opens without any passphrase.
+func checkSnaclErrors(c *Ctx, rule string) {
+	p := c.P
+	ed := &errDisc{p: p, carriers: map[*ssa.Function]bool{}, flowCalls: map[*ssa.Function][]*ssa.Call{}}
+	n := 0
+	for _, fn := range p.FuncsIn("snacl") {
+		for _, ci := range callsOf(fn) {
+			call, ok := ci.(*ssa.Call)
+			if !ok || callErrIndex(call.Common()) < 0 {
+				continue
+			}
+			n++
+			res := ed.checkSite(call)
+			kind := res.kind
+			if kind == "" {
+				kind = "propagated"
+			}
+			c.Check(rule, fmt.Sprintf("snacl-error-propagated:%s/%s", fnName(fn), calleeDesc(call.Common())), call.Pos(), res.ok,
+				"an error inside snacl is "+kind+": "+res.detail+" — the caller continues with a key that was never derived (all-zero) or a nonce that was never filled")
+		}
+	}
+	c.Floor(rule, "error-returning calls inside snacl", n, 4)
+}
+
+// checkAddrCacheAfterLastWrite: within one operation, an address object is put into the scoped manager's
+// address cache (ScopedKeyManager.addrs) only after the operation's last fallible database write: a write
+// that fails after the insertion leaves a cached address the rolled-back database does not know (queries
+// report it, a retry is refused as a duplicate). Within-operation ordering only; the enclosing-transaction
+// clause (cache filled before the commit) is the advisory of C10-R2.
+func checkAddrCacheAfterLastWrite(c *Ctx, rule string) {
+	p := c.P
+	ed := newErrDisc(p)
+	n := 0
+	for _, fn := range p.FuncsIn("waddrmgr") {
+		for _, b := range fn.Blocks {
+			for _, ins := range b.Instrs {
+				mu, ok := ins.(*ssa.MapUpdate)
+				if !ok {
+					continue
+				}
+				tn, f, _, okf := fieldOf(stripConv(mu.Map))
+				if !okf || tn != "ScopedKeyManager" || f != "addrs" {
+					continue
+				}
+				n++
+				q := &PathQuery{Fn: fn, Target: func(i ssa.Instruction, _ *ssa.BasicBlock) bool {
+					call, ok := i.(*ssa.Call)
+					return ok && ed.isCarrierSite(call)
+				}}
+				hits := q.From(mu)
+				detail := ""
+				if len(hits) > 0 {
+					detail = fmt.Sprintf("%s caches the address object and then performs another fallible database write (%s at %s): if that write fails the transaction is rolled back but the cache keeps an address the database does not know",
+						fnName(fn), ed.siteName(hits[0].Ins.(*ssa.Call)), p.Pos(hits[0].Ins.Pos()))
+				}
+				c.Check(rule, "address-cached-after-last-write:"+fnName(fn), mu.Pos(), len(hits) == 0, detail)
+			}
+		}
+	}
+	c.Floor(rule, "address-cache insertions", n, 5)
+}
+
+// checkSelectedKeyUsedUnderLock: Manager.lock() zeroes the crypto keys IN PLACE under the manager's write
+// lock, and selectCryptoKey hands out a pointer to the live key. Every use of a key obtained from
+// selectCryptoKey must therefore happen with the manager mutex still held (read or write) — otherwise a
+// concurrent Lock() between selection and use makes Encrypt seal under the all-zero key and report success.
+func checkSelectedKeyUsedUnderLock(c *Ctx, rule string) {
+	p := c.P
+	sel := p.Func("waddrmgr", "Manager", "selectCryptoKey")
+	if sel == nil {
+		c.Unresolved(rule, "Manager.selectCryptoKey")
+		return
+	}
+	n := 0
+	for _, cs := range p.callers(sel) {
+		selCall, ok := cs.(*ssa.Call)
+		if !ok {
+			continue
+		}
+		fn := selCall.Parent()
+		// uses: calls whose receiver derives from the selection result
+		for _, ci := range callsOf(fn) {
+			use, ok := ci.(*ssa.Call)
+			if !ok || !use.Call.IsInvoke() {
+				continue
+			}
+			derives := false
+			for _, o := range (&Slicer{P: p, KeepExtract: true}).Origins(use.Call.Value) {
+				if ex, ok := o.(*ssa.Extract); ok && ex.Tuple == ssa.Value(selCall) {
+					derives = true
+				}
+			}
+			if !derives {
+				continue
+			}
+			n++
+			held, why := p.heldUpward(use, 0, map[*ssa.Function]bool{})
+			ok2 := held["waddrmgr.Manager.mtx"] || held["waddrmgr.Manager.mtx(R)"]
+			c.Check(rule, "selected-key-used-under-manager-lock:"+fnName(fn)+"/"+use.Call.Method.Name(), use.Pos(), ok2,
+				fmt.Sprintf("%s uses the key returned by selectCryptoKey without holding the manager mutex (held: %s; %s): a concurrent Lock() zeroes that key in place, and the operation then succeeds under the all-zero key", fnName(fn), lsString(held), strings.Join(why, "; ")))
+		}
+	}
+	c.Floor(rule, "uses of a selected crypto key", n, 2)
+}
